@@ -16,10 +16,10 @@ from .. import graph_hist as H
 from .. import histprops as HP
 
 LEVEL = 'proof'
-NEEDS = ['PyRt', 'PyRtLoop', 'TraversalGenLemmas', 'TraversalGenCyc', 'TraversalGenCycProofs', 'CorrTraversalBase', 'CorrTraversalGenCyc', 'SFValidate', 'CtorAcyclicProofs', 'CtorAcyclicLag', 'Extracted', 'SourceFacts', 'Base', 'Digraph', 'DigraphProofs', 'Names', 'Graph', 'GraphObs', 'GraphTS', 'GraphInv', 'GraphAcyclicLemmas', 'GraphAcyclicProofs']
+NEEDS = ['PyRtMut', 'PyRtAdd', 'MutGenAdd', 'MutGenAddProofs', 'CorrMutGenAdd', 'PyRt', 'PyRtLoop', 'TraversalGenLemmas', 'TraversalGenCyc', 'TraversalGenCycProofs', 'CorrTraversalBase', 'CorrTraversalGenCyc', 'SFValidate', 'CtorAcyclicProofs', 'CtorAcyclicLag', 'Extracted', 'SourceFacts', 'Base', 'Digraph', 'DigraphProofs', 'Names', 'Graph', 'GraphObs', 'GraphTS', 'GraphInv', 'GraphAcyclicLemmas', 'GraphAcyclicProofs']
 # the code translated from the source on every run: when the translator REFUSES the current source the run falls back to the
 # hand-written model and its correspondence (harness/main.py)
-GEN_SOFT = dict(generated=['TraversalGenCyc'], modules=['TraversalGenCyc', 'TraversalGenCycProofs', 'CorrTraversalGenCyc'])
+GEN_SOFT = dict(generated=['TraversalGenCyc', 'MutGenAdd'], modules=['TraversalGenCyc', 'TraversalGenCycProofs', 'CorrTraversalGenCyc', 'MutGenAdd', 'MutGenAddProofs', 'CorrMutGenAdd'])
 
 
 def acyclic(nodes, arcs):
@@ -216,15 +216,53 @@ def constructor_stream(run, tier, rng):
     return bad
 
 
+def self_loop_forms():
+    """a self-loop is the shortest directed cycle: in every argument form (identifiers, Node objects, one of each, an Edge object,
+    a pair), on both classes, for a node that exists and for one that does not, the call raises CyclicConnectionError and leaves no
+    node behind (F18: the mixed forms used to raise NodeDuplicatedError)"""
+    from cai_causal_graph import CausalGraph, TimeSeriesCausalGraph
+    from cai_causal_graph.exceptions import CausalGraphErrors
+    from cai_causal_graph.graph_components import Edge, Node, TimeSeriesNode
+    problems = []
+    for cls, ncls, names in ((CausalGraph, Node, ['a', 'b']), (TimeSeriesCausalGraph, TimeSeriesNode, ['x lag(n=1)', 'y'])):
+        for present in (False, True):
+            for nm in names:
+                forms = {'ids': lambda g: g.add_edge(nm, nm), 'nodes': lambda g: g.add_edge(ncls(nm), ncls(nm)),
+                         'node,id': lambda g: g.add_edge(ncls(nm), nm), 'id,node': lambda g: g.add_edge(nm, ncls(nm)),
+                         'plain node,id': lambda g: g.add_edge(Node(nm), nm), 'pair': lambda g: g.add_edge_by_pair((nm, nm)),
+                         'undirected ids': lambda g: g.add_edge(nm, nm, edge_type='--'), 'unvalidated node,id': lambda g: g.add_edge(ncls(nm), nm, validate=False)}
+                for label, f in forms.items():
+                    g = cls()
+                    g.add_node('other' if cls is CausalGraph else 'z')
+                    if present:
+                        g.add_node(nm)
+                    before = (g.get_node_names(), [e.get_edge_pair() for e in g.get_edges()])
+                    try:
+                        f(g)
+                        problems.append(f'{cls.__name__}: self-loop on {nm!r} ({label}) was accepted')
+                        continue
+                    except CausalGraphErrors.CyclicConnectionError:
+                        pass
+                    except Exception as e:  # noqa: BLE001
+                        problems.append(f'{cls.__name__}: self-loop on {nm!r} given as {label} raises {type(e).__name__} instead of CyclicConnectionError')
+                    if (g.get_node_names(), [e.get_edge_pair() for e in g.get_edges()]) != before:
+                        problems.append(f'{cls.__name__}: refused self-loop on {nm!r} ({label}) changed the graph')
+    return problems[:3]
+
+
 def check(run, tier, seed):
     from .. import travcorr
     travcorr.traversal_correspondence(run, 'C02', tier, seed)
     rng = random.Random(seed + 2)
-    HP.history_property(run, tier, seed, pid='C02', oracle=oracle, n_quick=200, n_thorough=3000,
+    _hist = HP.history_property(run, tier, seed, pid='C02', oracle=oracle, n_quick=200, n_thorough=3000,
                         gen_factory=lambda r, kind: CloseGen(r, kind),
                         describe='Histories biased to cycle-closing calls (closing arcs, change_edge_type turning -- into the closing arc, '
                                  'replace_edge / replace_node / bulk adders), validate on and off; after every step the directed edges of the '
                                  'real graph are checked for acyclicity and is_dag() against "all directed and acyclic".')
+    from .. import addgencorr
+    addgencorr.translated_adders(run, _hist[0])
+    for why in self_loop_forms():
+        run.violation(dict(kind_of_case='self_loop_forms', why=why, replay_cmd='./check C02 --replay <this file>'), note=why)
     bad = constructor_stream(run, tier, rng)
     for b in bad[:3]:
         run.violation(dict(b, replay_cmd='./check C02 --replay <this file>'), note=b['why'][:200])
@@ -234,6 +272,12 @@ def check(run, tier, seed):
 
 def replay(run, path):
     case = json.loads(open(path).read())
+    if case.get('kind_of_case') == 'self_loop_forms':
+        ps = self_loop_forms()
+        print('self-loop forms:', ps or 'all refused with CyclicConnectionError')
+        for why in ps:
+            run.violation(dict(case, why=why), note=why)
+        return 1 if run.violations else 0
     if case.get('kind') == 'traversal':
         from .. import travcorr
         return travcorr.replay(run, 'C02', case)
